@@ -5,8 +5,9 @@ EXTENDS SigDb, Json
 CONSTANT Depth
 VARIABLE hist
 D(id, n, enc, der, derlen, ts) == [id |-> id, len |-> n, enc |-> enc, der |-> der, derlen |-> derlen, types |-> ts]
-MCData == { D("h1", 32, "raw", "h1", 32, {"sha256", "sha1"}),      \* the same bytes enrolled under two signature types are two different entries D("h2", 32, "raw", "h2", 32, {"sha256"}),
-            D("h31", 31, "raw", "h31", 31, {"sha256"}),
+(* h1: the same bytes enrolled under two signature types are two different entries; h31, h33, h48: not the length of a SHA-256 digest *)
+MCData == { D("h1", 32, "raw", "h1", 32, {"sha256", "sha1"}), D("h2", 32, "raw", "h2", 32, {"sha256"}),
+            D("h31", 31, "raw", "h31", 31, {"sha256"}), D("h33", 33, "raw", "h33", 33, {"sha256"}), D("h48", 48, "raw", "h48", 48, {"sha256"}),
             D("c1", 700, "raw", "c1", 700, {"x509"}), D("c2", 700, "raw", "c2", 700, {"x509"}),
             D("c3", 900, "raw", "c3", 900, {"x509"}),
             D("p1", 1006, "pem", "c1", 700, {"x509"}), D("p3", 1275, "pem", "c3", 900, {"x509"}),
@@ -14,7 +15,7 @@ MCData == { D("h1", 32, "raw", "h1", 32, {"sha256", "sha1"}),      \* the same b
             D("e1", 1, "raw", "e1", 1, {"extern"}),      \* externally-managed list: one data byte per entry
             D("s1", 20, "raw", "s1", 20, {"sha1"}), D("u1", 40, "raw", "u1", 40, {"bogus"}) }
 (* reduced universe for the deepest exhaustive bound *)
-MCDataSmall == {x \in MCData : x.id \in {"h1", "h31", "c1", "c3", "p1", "s1", "u1", "e1"}}
+MCDataSmall == {x \in MCData : x.id \in {"h1", "h31", "h33", "c1", "c3", "p1", "s1", "u1", "e1"}}
 Ent(o, id, n) == [owner |-> o, data |-> id, len |-> n]
 Lst(t, size, es) == [type |-> t, listsize |-> 28 + Len(es) * size, hdrsize |-> 0, size |-> size, entries |-> es]
 MCPresets == [ dupA  |-> << Lst("sha256", 48, <<Ent("o1","h1",32), Ent("o1","h1",32), Ent("o2","h2",32)>>) >>,
